@@ -28,6 +28,7 @@
  *   open C FILE           > open <st>                  kdump_open_fd
  *   popen C FILE          > open <st>  and  > predump <tree before the failure teardown | ->
  *   nfiles C N            (same as set C file.set.number num:N)
+ *   setfn C HEX|-         > setfn <st>                 kdump_set_filename (one name; - = NULL)
  * The persistence flag printed by `dump` is read from the library's private
  * struct attr_data through the reference (it is the "set by the application"
  * mark of the property).
@@ -273,6 +274,16 @@ int main(void)
 			if (vparse(a2, &at)) { puts("> set badvalue"); continue; }
 			st = kdump_set_attr(ctxs[c], P(a1), &at);
 			show("set", ctxs[c], st, NULL, NULL);
+		} else if (sscanf(line, "setfn %d %65535s", &c, a1) == 2) {
+			/* kdump_set_filename: name given as hex, `-` = NULL (forget the name) */
+			if (strcmp(a1, "-")) {
+				size_t n = 0; const char *q = a1; unsigned bb;
+				while (q[0] && q[1] && sscanf(q, "%2x", &bb) == 1) { strbuf[n++] = bb; q += 2; }
+				strbuf[n] = 0;
+				st = kdump_set_filename(ctxs[c], strbuf);
+			} else
+				st = kdump_set_filename(ctxs[c], NULL);
+			show("setfn", ctxs[c], st, NULL, NULL);
 		} else if (sscanf(line, "nfiles %d %d", &c, &d) == 2) {
 			at.type = KDUMP_NUMBER; at.val.number = d;
 			st = kdump_set_attr(ctxs[c], "file.set.number", &at);
